@@ -95,7 +95,7 @@ static void mode_cvbr(void){
   int sk=vc_below(&r,VS_NFINITE); if(sk==VS_SILENCE||sk==VS_DC||sk==VS_DITHER) sk=VS_MULTITONE; vc_siggen g; vs_init(&g,sk,Fs,ch,0.6f,vc_next(&r));
   static float f[5760*2]; static unsigned char pkt[1500]; long long total=0; int *lens=(int*)malloc(sizeof(int)*nfr); double tol=atof(vc_arg("tol","0.15")), tolw=atof(vc_arg("tolw","0.35")); /* calib/c05.json */
   int modes_seen=0; int mode_switch_at=vc_chance(&r,1,3)?nfr/3:-1;
-  for(int k=0;k<nfr;k++){ if(k==mode_switch_at){ /* a history: hybrid/SILK frames then CELT (or back) while CVBR stays on */ opus_encoder_ctl(e,VK_SET_FORCE_MODE_REQUEST,VK_MODE_SILK+(int)vc_below(&r,3)); }
+  for(int k=0;k<nfr;k++){ if(k==mode_switch_at){ /* a history: hybrid/SILK frames then CELT (or back) while CVBR stays on */ opus_encoder_ctl(e,VK_SET_FORCE_MODE_REQUEST,vc_chance(&r,1,2)?VK_MODE_HYBRID:VK_MODE_SILK+(int)vc_below(&r,3)); }
     if(k==2*nfr/3&&mode_switch_at>=0) opus_encoder_ctl(e,VK_SET_FORCE_MODE_REQUEST,VK_MODE_CELT);
     vs_fill(&g,f,fs); int len=opus_encode_float(e,f,fs,pkt,1500); if(len<0){ vc_viol("encode:failed","cvbr encode returned %d",len); break; } lens[k]=len; total+=len; modes_seen|=1<<rfc_mode(pkt[0]); }
   double frame_s=(double)fs/Fs; double toc_bps=8.0/frame_s; /* one TOC byte per packet is outside the codec layers' rate control */
@@ -103,6 +103,9 @@ static void mode_cvbr(void){
   /* sliding windows of 3 s */
   int w=(int)(3.0/frame_s); double worst=0; if(w<nfr){ long long s=0; for(int k=0;k<nfr;k++){ s+=lens[k]; if(k>=w) s-=lens[k-w]; if(k>=w-1){ double a=s*8.0/(w*frame_s)-toc_bps; if(a/br>worst) worst=a/br; } } }
   vc_max("cvbr_whole_stream_ratio",avg/br); vc_max("cvbr_3s_window_ratio",worst);
+  /* the MDCT-only tail of a stream with a mode history (forced CELT from 2/3 on): its own average, after 1 s of settling, stays at the target;
+     an encoder whose constraint was lost along the history shows here even when the whole-stream average hides it */
+  if(mode_switch_at>=0){ int k0=2*nfr/3+(int)(1.0/frame_s); if(nfr-k0>(int)(1.5/frame_s)){ long long s2=0; int allcelt=1; for(int k=k0;k<nfr;k++) s2+=lens[k]; double a=s2*8.0/((nfr-k0)*frame_s)-toc_bps; vc_max("cvbr_celt_tail_ratio",a/br); (void)allcelt; double tolt=atof(vc_arg("tolt","0.08")); if(a/br>1.0+tolt+1276*8.0/((nfr-k0)*frame_s)/br) vc_viol("cvbr:tail-exceeds-target","after a mode history the MDCT-only tail averages %.3f x target %d (Fs=%d ch=%d frame=%d sig=%s)",a/br,br,Fs,ch,fs,vs_names[sk]); vc_count("cvbr_tails_checked",1); } }
   /* reservoir allowance: one maximal packet per window */
   double allow=1276*8.0/3.0/br;
   if(avg/br>1.0+tol+allow*3.0/secs) vc_viol("cvbr:average-exceeds-target","whole-stream average %.0f b/s = %.3f x target %d (Fs=%d ch=%d app=%d frame=%d sig=%s forced_mode=%d modes_seen=%d)",avg,avg/br,br,Fs,ch,app,fs,vs_names[sk],fm,modes_seen);
